@@ -221,6 +221,11 @@ def r3(ctx):
 
 @rule("R-C08-4", min_instances=3, title="release pairing: wherever sock is dropped it was closed first and connected is False")
 def r4(ctx):
+    recv_release(ctx)
+    shutdown_release(ctx)
+
+
+def recv_release(ctx):
     # _recv on connection loss
     def mr(name, node, run):
         if name == "_socket:recv":
@@ -240,22 +245,29 @@ def r4(ctx):
     for o in outs:
         conn, sock = _state(o)
         closes = [e for e in o.effects if e.name == "ws.sock.close"]
-        if o.kind == "raise" and exc_is(I, o, CLOSED_EXC):
+        injected = [e.kwargs["@raised"].v for e in o.effects if "@raised" in e.kwargs]
+        inj = injected[-1] if injected else None
+        if inj == TIMEOUT_EXC:
+            # classified by what the transport layer raised, not by what comes out: a handler that takes the timeout for a loss
+            # (e.g. through the class hierarchy of _exceptions.py) must not hide behind the "closed" case
+            seen.add("timeout")
+            ok = o.kind == "raise" and exc_is(I, o, TIMEOUT_EXC) and not closes and sock != NONE and conn == TRUE
+            ctx.ob(f"{q}:timeout:state-untouched", ok, "a timeout leaves sock and connected as they were" if ok else
+                   f"a receive timeout changes the connection: ends as {o.kind} {o.exc_class}, close() calls {len(closes)}, sock={sock!r}, connected={conn!r}", loc, {"path": path_text(o)})
+        elif o.kind == "raise" and exc_is(I, o, CLOSED_EXC):
             seen.add("closed")
             ok = len(closes) == 1 and sock == NONE and conn == FALSE
             ctx.ob(f"{q}:connection-lost:released", ok, "transport closed, dropped, connected=False" if ok else
                    f"after loss of the peer: close() calls {len(closes)}, sock={sock!r}, connected={conn!r}", loc, {"path": path_text(o)})
-        elif o.kind == "raise" and exc_is(I, o, TIMEOUT_EXC):
-            seen.add("timeout")
-            ok = not closes and sock != NONE and conn == TRUE
-            ctx.ob(f"{q}:timeout:state-untouched", ok, "a timeout leaves sock and connected as they were" if ok else
-                   f"a receive timeout changes the connection: close() calls {len(closes)}, sock={sock!r}, connected={conn!r}", loc, {"path": path_text(o)})
         elif o.kind == "raise":
             seen.add("other")
             ok = (not closes and sock != NONE) or (len(closes) == 1 and sock == NONE and conn == FALSE)
             ctx.ob(f"{q}:other-error:consistent", ok, f"sock={sock!r} connected={conn!r} closes={len(closes)}", loc)
     if not {"closed", "timeout"} <= seen:
         raise AnalysisError(f"_recv: outcomes seen {seen}")
+
+
+def shutdown_release(ctx):
     # shutdown()
     I2 = Interp(ctx.index, Config(stubs=dict(BASE_STUBS)))
     for sk in ("set", "none"):
